@@ -268,6 +268,12 @@ def eval_rvalue(fr, rv, ctx):
         if op == 'BitAnd': return a & b
         if op == 'Eq': return a == b
         if op == 'Ne': return a != b
+        if isinstance(a, int) and isinstance(b, int):
+            return {'Lt': a < b, 'Le': a <= b, 'Gt': a > b, 'Ge': a >= b, 'Add': a + b, 'Sub': a - b}[op]
+        if op in ('Lt', 'Le', 'Gt', 'Ge'):
+            return {'Lt': ULT, 'Le': ULE, 'Gt': UGT, 'Ge': UGE}[op](a, b)
+        if op == 'Add': return a + b
+        if op == 'Sub': return a - b
         raise Exception('binop ' + op)
     m = re.fullmatch(r'(Add|Sub|Mul)WithOverflow\((.*)\)', rv)
     if m:
@@ -276,11 +282,23 @@ def eval_rvalue(fr, rv, ctx):
         if isinstance(b, bool): b = int(b)
         if isinstance(a, int) and isinstance(b, int):
             return Struct([{'Add': a + b, 'Sub': a - b, 'Mul': a * b}[m.group(1)], False])
-        raise NotEncodable('symbolic checked arithmetic in container mode')
-    m = re.fullmatch(r'(.*) as \w+ \(IntToInt\)', rv)
+        # symbolic: bit-vector of the operand width; unsigned overflow flag (the encoded container code only uses unsigned lengths)
+        w = (a if not isinstance(a, int) else b).size()
+        a = BitVecVal(a, w) if isinstance(a, int) else a
+        b = BitVecVal(b, w) if isinstance(b, int) else b
+        ea, eb = ZeroExt(w, a), ZeroExt(w, b)
+        wide = {'Add': ea + eb, 'Sub': ea - eb, 'Mul': ea * eb}[m.group(1)]
+        res = Extract(w - 1, 0, wide)
+        return Struct([res, ZeroExt(w, res) != wide])
+    m = re.fullmatch(r'(.*) as (\w+) \(IntToInt\)', rv)
     if m:
         v = eval_operand(fr, m.group(1), ctx)
-        return int(v) if isinstance(v, bool) else v
+        if isinstance(v, bool): return int(v)
+        if is_expr(v) and is_bv(v):
+            w = {'u8': 8, 'i8': 8, 'u16': 16, 'i16': 16, 'u32': 32, 'i32': 32, 'u64': 64, 'i64': 64, 'usize': 64, 'isize': 64}.get(m.group(2))
+            if w and w < v.size(): return Extract(w - 1, 0, v)
+            if w and w > v.size(): return ZeroExt(w - v.size(), v)
+        return v
     if rv.startswith('(') and rv.endswith(')') and re.match(r'\((move|copy|const) ', rv):
         parts = split_top(rv[1:-1])
         if len(parts) > 1 or rv.endswith(',)'):
@@ -295,6 +313,13 @@ def eval_rvalue(fr, rv, ctx):
         st = Struct([eval_operand(fr, part.split(':', 1)[1], ctx) for part in split_top(m.group(3))])
         st.kind = m.group(1).split('::')[-1]
         return st
+    m = re.fullmatch(r'PtrMetadata\((.*)\)', rv)
+    if m:
+        v = _d(eval_operand(fr, m.group(1), ctx))
+        if isinstance(v, VecV): return len(v.items)
+        if isinstance(v, Str): return len(v.b)
+        if isinstance(v, Struct): return len(v.f)
+        raise NotEncodable('length of ' + repr(v))
     m = re.fullmatch(r'(Not|Neg)\((.*)\)', rv)
     if m:
         v = eval_operand(fr, m.group(2), ctx)
@@ -354,6 +379,19 @@ class Peekable:
         v = self.it.next_back()
         if v is None and self.peeked: v = self.peeked[0]; self.peeked = ()
         return v
+class EnumerateIter:
+    def __init__(self, it): self.it, self.i = it, 0
+    def next(self):
+        x = self.it.next()
+        if x is None: return None
+        self.i += 1
+        return Struct([self.i - 1, x])
+class AbstractBytes:
+    """a byte vector of which only the (symbolic) length matters"""
+    def __init__(self, length): self.length = length
+def _d(v):
+    while isinstance(v, Ref): v = v.get()
+    return v
 class SplitIter:
     def __init__(self, s, ch): self.rest, self.ch, self.done = list(s.b), ch, False
 
@@ -407,6 +445,7 @@ def serialize_value(v, ser, ctx):
 class Wrapper(Struct):
     def __init__(self, kind, inner): Struct.__init__(self, [inner]); self.kind = kind
 VRNAMES = ['AE','AS','AT','CS','DA','DS','DT','FL','FD','IS','LO','LT','OB','OD','OF','OL','OV','OW','PN','SH','SL','SQ','SS','ST','SV','TM','UC','UI','UL','UN','UR','US','UT','UV']
+GENERICS = []            # stack of explicit generic arguments of the free functions being executed
 EXTRA_CONTRACTS = []     # case modules register (callee, args, ctx) -> value | NotImplemented
 
 
@@ -625,6 +664,128 @@ def call(fr, callee, args, ctx):
             if not some: return Enum('None', [])
             r = callc(args[1], Ref(Cell(o.f[0]))); keep = ctx.branch(r) if not isinstance(r, bool) else r
             return Enum('Some', [o.f[0]]) if keep else Enum('None', [])
+    if re.match(r'(Vec|SmallVec)::<.*>::(new|with_capacity)$', c): return VecV([])
+    if re.match(r'(Vec|SmallVec)::<.*>::is_empty$', c): return len(_d(args[0]).items) == 0
+    if re.match(r'(Vec|SmallVec)::<.*>::push$', c): _d(args[0]).items.append(args[1]); return None
+    if re.match(r'Vec::<.*>::append$', c):
+        dst, src = _d(args[0]), _d(args[1]); dst.items.extend(src.items); src.items = []; return None
+    if re.match(r'SmallVec::<.*>::from_vec$', c): return args[0]
+    if re.match(r'<Vec<.*> as IntoIterator>::into_iter$', c): return SliceIter(list(_d(args[0]).items))
+    if re.match(r'<&(mut )?(\[.*\]|Vec<.*>|SmallVec<.*>) as IntoIterator>::into_iter$', c):
+        v = _d(args[0]); xs = v.items if isinstance(v, VecV) else v.f
+        return SliceIter([Ref(Cell(e)) for e in xs])
+    if re.match(r'<std::slice::Iter<.*> as Iterator>::next$', c): return opt(_d(args[0]).next())
+    if re.match(r'<Vec<.*> as Deref>::deref$', c): return _d(args[0])
+    if c.endswith('as Iterator>::enumerate'): return EnumerateIter(args[0])
+    if re.match(r'<Enumerate<.*> as IntoIterator>::into_iter$', c): return args[0]
+    if re.match(r'<Enumerate<.*> as Iterator>::next$', c):
+        it = _d(args[0]); x = it.it.next()
+        if x is None: return opt(None)
+        it.i += 1
+        return opt(Struct([it.i - 1, x]))
+    mi = re.search(r'as (?:DoubleEnded)?Iterator>::(position|rposition|any|all|find|find_map|count|last|nth|skip|take|filter|filter_map|rev|zip|chain|cloned|copied|for_each|max|min|sum)(?:::<.*>)?$', c)
+    if mi:
+        meth = mi.group(1)
+        it = _d(args[0])
+        def items():
+            out = []
+            while True:
+                x = iter_next(it, ctx)
+                if x is None: return out
+                out.append(x)
+        def truth(r): return ctx.branch(r) if not isinstance(r, bool) else r
+        def callc(clo, *a): return run_fn(closure_name(clo), [clo] + list(a), ctx)
+        if meth == 'count': return len(items())
+        if meth == 'last':
+            xs = items(); return opt(xs[-1] if xs else None)
+        if meth in ('position', 'rposition'):
+            xs = items(); idx = list(range(len(xs)))
+            if meth == 'rposition': idx.reverse()
+            for k in idx:
+                if truth(callc(args[1], xs[k])): return Enum('Some', [k])
+            return Enum('None', [])
+        if meth in ('any', 'all'):
+            for x in items():
+                t = truth(callc(args[1], x))
+                if meth == 'any' and t: return True
+                if meth == 'all' and not t: return False
+            return meth == 'all'
+        if meth == 'find':
+            for x in items():
+                if truth(callc(args[1], Ref(Cell(x)))): return Enum('Some', [x])
+            return Enum('None', [])
+        if meth == 'find_map':
+            for x in items():
+                r = callc(args[1], x)
+                if option_is_some(r, ctx): return r
+            return Enum('None', [])
+        if meth == 'nth':
+            xs = items(); n_ = args[1]; return opt(xs[n_] if n_ < len(xs) else None)
+        if meth == 'skip': return SliceIter(items()[args[1]:])
+        if meth == 'take': return SliceIter(items()[:args[1]])
+        if meth == 'rev': return Rev(it)
+        if meth in ('cloned', 'copied'): return SliceIter([_d(x) for x in items()])
+        if meth == 'filter': return SliceIter([x for x in items() if truth(callc(args[1], Ref(Cell(x))))])
+        if meth == 'filter_map':
+            out = []
+            for x in items():
+                r = callc(args[1], x)
+                if option_is_some(r, ctx): out.append(r.f[0])
+            return SliceIter(out)
+        if meth == 'zip':
+            a_, b_ = items(), []
+            other = _d(args[1])
+            while True:
+                y = iter_next(other, ctx)
+                if y is None: break
+                b_.append(y)
+            return SliceIter([Struct([p, q]) for p, q in zip(a_, b_)])
+        if meth == 'chain':
+            a_ = items(); other = _d(args[1]); b_ = []
+            while True:
+                y = iter_next(other, ctx)
+                if y is None: break
+                b_.append(y)
+            return SliceIter(a_ + b_)
+        if meth == 'for_each':
+            for x in items(): callc(args[1], x)
+            return None
+        raise NotEncodable('iterator adapter ' + meth)
+    if re.search(r'impl str>::repeat$', c):
+        b_, n_ = _d(args[0]).b, args[1]
+        if not isinstance(n_, int): raise NotEncodable('str::repeat with a symbolic count')
+        return Str(list(b_) * n_)
+    if re.match(r'String::with_capacity$', c): return Str([])
+    if re.match(r'String::len$', c) or re.search(r'impl str>::len$', c): return len(_d(args[0]).b)
+    if re.match(r'String::is_empty$', c): return len(_d(args[0]).b) == 0
+    if re.match(r'String::pop$', c):
+        s_ = _d(args[0])
+        return opt(s_.b.pop() if s_.b else None)
+    if re.search(r'impl str>::(ends_with|starts_with)::<char>$', c):
+        b_, ch = _d(args[0]).b, args[1]
+        if not b_: return False
+        x = b_[-1] if 'ends_with' in c else b_[0]
+        return (x == ch) if isinstance(x, int) else ctx.branch(x == ch)
+    mi = re.match(r'<\[(.*)\] as Index<(?:std::ops::)?(RangeInclusive|Range|RangeFrom|RangeTo)<usize>>>::index$', c) or re.match(r'core::slice::index::<impl Index<(?:std::ops::)?(RangeInclusive|Range|RangeFrom|RangeTo)<usize>> for \[(.*)\]>::index$', c)
+    if mi:
+        seq = _d(args[0]); rg = _d(args[1])
+        xs = seq.items if isinstance(seq, VecV) else seq.f
+        kind = 'RangeInclusive' if 'RangeInclusive' in c else ('RangeFrom' if 'RangeFrom' in c else ('RangeTo' if 'RangeTo' in c else 'Range'))
+        vals = list(rg) if isinstance(rg, tuple) else list(rg.f)
+        if kind == 'RangeInclusive': lo, hi = vals[0], vals[1] + 1
+        elif kind == 'Range': lo, hi = vals[0], vals[1]
+        elif kind == 'RangeFrom': lo, hi = vals[0], len(xs)
+        else: lo, hi = 0, vals[0]
+        return VecV(list(xs[lo:hi]))
+    if re.search(r'as Iterator>::fold::<', c):
+        it, acc, clo = args
+        while True:
+            x = iter_next(it, ctx)
+            if x is None: return acc
+            acc = run_fn(closure_name(clo), [clo, acc, x], ctx)
+    if re.match(r'Vec::<u8>::len$', c):
+        v = _d(args[0])
+        return v.length if isinstance(v, AbstractBytes) else len(v.items)
     if re.match(r'SmallVec::<.*>::len$', c) or re.match(r'Vec::<.*>::len$', c): return len(args[0].get().items)
     if re.match(r'<SmallVec<.*> as Index<usize>>::index', c) or re.match(r'<Vec<.*> as Index<usize>>::index', c):
         return Ref(Cell(args[0].get().items[args[1] if isinstance(args[1], int) else args[1].as_long()]))
@@ -653,6 +814,14 @@ def call(fr, callee, args, ctx):
         cands = [n for n, f in FNS.items() if n.endswith('::' + meth) and '<impl at' in n and
                  (norm(f.ret) == ty or re.match(r'_1: &?(mut )?%s(?![\w<])' % re.escape(ty), norm(f.ptext)))]
         if len(cands) == 1: return run_fn(cands[0], args, ctx)
+    m = re.fullmatch(r'((?:\w+::)*\w+)(?:::<(.*)>)?', c)
+    if m:      # free function of the dumped crates called with explicit generic arguments
+        nm = m.group(1)
+        cands = [n for n in FNS if n == nm or n.endswith('::' + nm)]
+        if len(cands) == 1:
+            GENERICS.append(split_top(m.group(2)) if m.group(2) else [])
+            try: return run_fn(cands[0], args, ctx)
+            finally: GENERICS.pop()
     raise NotEncodable('no contract for ' + c)
 
 def parse_call(st):
